@@ -208,10 +208,12 @@ func (t *Tags) RemoveTag(key string) {
 }
 
 func (t *Tags) RemoveTags(keys []string) {
-	for i, tag := range *t {
+	// Iterate backwards, since removing a tag shifts the tags after it.
+	for i := len(*t) - 1; i >= 0; i-- {
 		for _, key := range keys {
-			if tag.Key == key {
+			if (*t)[i].Key == key {
 				*t = append((*t)[:i], (*t)[i+1:]...)
+				break
 			}
 		}
 	}
